@@ -1,2 +1,5 @@
 import Dalek.Props.C11.Kernels
 import Dalek.Props.C11.Formulas
+import Dalek.Props.C11.Avx2
+import Dalek.Props.C11.Ifma
+import Dalek.Props.C11.VecChain
